@@ -199,7 +199,7 @@ Proof.
 Qed.
 
 (* ---------------------------------------------------------------- C03: LostCode *)
-Notation lost_entry_s path := (lost_entry nl nl (nl path) (nl lost_sep)).
+Notation lost_entry_s path := (lost_entry nl nl (nl (basename path)) (nl lost_sep)).
 
 (* the lines of the LostCode pseudo-file of one file: one labelled entry, in collection order, for every
    tag of the old file that holds a non-empty block and is not emitted by the new fresh file *)
@@ -236,7 +236,7 @@ Proof.
   apply parse_items_flatten in Hp. subst fresh'.
   destruct (user_ok_blocks u Hu) as [Huo HT].
   unfold regen1.
-  rewrite (regen_evolution String.eqb eqb_spec_str tab4 is_tag kof sub_of kpfx vis nl nl (nl path) (nl lost_sep)
+  rewrite (regen_evolution String.eqb eqb_spec_str tab4 is_tag kof sub_of kpfx vis nl nl (nl (basename path)) (nl lost_sep)
              (fun k => map tab4 (u k)) its its' "" (wfb_wf its Hwf) Huo Hwf' HT).
   cbn [snd]. unfold lost_lines. f_equal.
   unfold collected.
